@@ -480,10 +480,12 @@ func checkResetSpec(p *Prog, r *Result, pkg *packages.Package, spec resetSpec) {
 			// with mechanical part 2: the field is assigned a value that does not depend on its old one somewhere outside
 			// reset() and the options. A field that is only ever incremented, decremented or or-ed carries what the
 			// previous use left in it.
-			if witness := readFirstWitness(p, pkg, "syntax", spec.typeName, spec.entries, fv); witness == "" {
+			witness := readFirstWitness(p, pkg, "syntax", spec.typeName, spec.entries, fv)
+			if witness == "" {
 				r.OK("R08a", key, fv.Pos(), "written before read on every path from every entry point (proved): "+why)
 				continue
 			}
+			r.Notef("R08a: %s is not proved written before read outright; a path that may read it first: %s", key, witness)
 			if ok, how := stateGatedProof(p, pkg, "syntax", st, fv, resetFD); ok {
 				r.OK("R08a", key, fv.Pos(), "written before read (proved by state gating): "+how)
 				continue
